@@ -1,6 +1,11 @@
------------------------------ MODULE RDProducer -----------------------------
+----------------------------- MODULE RDProducerCh ---------------------------
 (* actor/reliable_delivery_producer_controller.go, volatile path (no durable queue),  *)
-(* whole messages (no chunking), one session (no controller restart).                 *)
+(* one session (no controller restart), WITH chunking (WithReliableChunking): a        *)
+(* Produced whose encoded frame needs c > 1 chunks is stored as c unconfirmed entries  *)
+(* under contiguous sequences (storeChunks); Stored / DeliveryConfirmed carry the last *)
+(* chunk's sequence.  Entries and SequencedMessages carry the chunk mark               *)
+(* [ch, first, last]; a whole message has the zero mark.  RDProducer is this module    *)
+(* with every c = 1.                                                                   *)
 EXTENDS RDCommon
 CONSTANTS MaxWin,   \* MaxReliableFlowControlWindow
           Defects   \* named deviations from the repaired design; {} = the code as it is now
@@ -12,15 +17,18 @@ CONSTANTS MaxWin,   \* MaxReliableFlowControlWindow
 (* Producer controller                                                             *)
 (* ------------------------------------------------------------------------------ *)
 PC0 == [cur |-> 0, conf |-> 0, unc |-> <<>>, reg |-> FALSE, nonce |-> 0, dem |-> 0,
-        hs |-> HsIdle, tok |-> 0, tokCtr |-> 0, pid |-> 0, pseq |-> 0,
+        hs |-> HsIdle, tok |-> 0, tokCtr |-> 0, pid |-> 0, pseq |-> 0, pn |-> 0, span |-> 0,
         lastTok |-> 0, lastId |-> 0, failed |-> FALSE]
+
+Whole == [ch |-> FALSE, first |-> FALSE, last |-> FALSE]
+Entry(seq, id, mk) == [seq |-> seq, id |-> id, ch |-> mk.ch, first |-> mk.first, last |-> mk.last]
 
 PCFail(r) == [r EXCEPT !.st.failed = TRUE]          \* terminate: publish failure, Shutdown
 
 \* emitSequenced: never above the granted demand, only to a registered consumer
-PCEmit(r, id, seq) ==
-  IF ~r.st.reg \/ seq > r.st.dem THEN r
-  ELSE Send(r, "cc", [t |-> "Seq", seq |-> seq, id |-> id])
+PCEmit(r, e) ==
+  IF ~r.st.reg \/ e.seq > r.st.dem THEN r
+  ELSE Send(r, "cc", [t |-> "Seq", seq |-> e.seq, id |-> e.id, ch |-> e.ch, first |-> e.first, last |-> e.last])
 
 PCSendRequestNext(r) == Send(r, "p", [t |-> "ReqNext", tok |-> r.st.tok])
 
@@ -33,7 +41,9 @@ PCAllowNext(r) ==
 RECURSIVE PCConfirmEach(_, _, _)
 PCConfirmEach(r, unc, i) ==
   IF i > Len(unc) THEN r
-  ELSE PCConfirmEach(Send(r, "p", [t |-> "DConf", id |-> unc[i].id, seq |-> unc[i].seq]), unc, i + 1)
+  ELSE PCConfirmEach(IF ~unc[i].ch \/ unc[i].last                 \* notifiesConfirmation
+                     THEN Send(r, "p", [t |-> "DConf", id |-> unc[i].id, seq |-> unc[i].seq])
+                     ELSE r, unc, i + 1)
 
 PCAdvance(r, c) ==
   IF c <= r.st.conf THEN r
@@ -49,7 +59,7 @@ PCAdvance(r, c) ==
 RECURSIVE PCResendFrom(_, _, _)
 PCResendFrom(r, i, limit) ==
   IF i > Len(r.st.unc) \/ r.st.unc[i].seq > limit THEN r
-  ELSE PCResendFrom(PCEmit(r, r.st.unc[i].id, r.st.unc[i].seq), i + 1, limit)
+  ELSE PCResendFrom(PCEmit(r, r.st.unc[i]), i + 1, limit)
 PCResend(r) == PCResendFrom(r, 1, Min(r.st.cur, r.st.dem))
 
 \* handleRegisterConsumer (the sender is the resolved consumer companion: one consumer)
@@ -69,7 +79,7 @@ PCOnRequest(st, m) ==
   ELSE IF m.conf < 0 \/ m.conf > st.cur \/ m.upTo < m.conf \/ m.upTo > m.conf + MaxWin
   THEN PCFail(R0(st))
   ELSE LET r1 == PCAdvance(R0(st), m.conf)
-           r2 == [r1 EXCEPT !.st.dem = m.upTo]
+           r2 == [r1 EXCEPT !.st.dem = m.upTo, !.st.span = m.upTo - m.conf]
            r3 == IF m.via THEN PCResend(r2) ELSE r2
        IN PCAllowNext(r3)
 
@@ -90,16 +100,31 @@ PCOnProduced(st, m) ==
   ELSE IF m.tok = st.lastTok /\ m.id = st.lastId THEN R0(st)
   ELSE IF st.hs # HsCredit THEN PCFail(R0(st))
   ELSE IF m.tok # st.tok THEN PCFail(R0(st))
+  ELSE IF m.c > 1
+  THEN \* storeChunks: the window bound is terminal (the consumer confirms nothing mid-message)
+       IF m.c > st.span THEN PCFail(R0([st EXCEPT !.hs = 2, !.pid = m.id]))
+       ELSE LET chunks == [i \in 1..m.c |-> Entry(st.cur + i, m.id, [ch |-> TRUE, first |-> i = 1, last |-> i = m.c])]
+            IN PCReplyStored(R0([st EXCEPT !.pid = m.id, !.pn = m.c, !.pseq = st.cur + m.c, !.cur = st.cur + m.c,
+                                           !.unc = @ \o chunks]))
   ELSE LET seq == st.cur + 1
        IN PCReplyStored(R0([st EXCEPT !.pid = m.id, !.pseq = seq, !.cur = seq,
-                                      !.unc = Append(@, [seq |-> seq, id |-> m.id])]))
+                                      !.unc = Append(@, Entry(seq, m.id, Whole))]))
+
+\* completeAccept for a chunked message: every pending chunk, each under the demand check
+\* (pendingChunks = the entries pseq-pn+1 .. pseq, kept even if already confirmed meanwhile)
+RECURSIVE PCEmitChunks(_, _)
+PCEmitChunks(r, i) ==
+  LET n == r.st.pn IN
+  IF i > n THEN r
+  ELSE PCEmitChunks(PCEmit(r, Entry(r.st.pseq - n + i, r.st.pid, [ch |-> TRUE, first |-> i = 1, last |-> i = n])), i + 1)
 
 \* handleStoredAck -> startAccept -> completeAccept (volatile: synchronous)
 PCOnStoredAck(st, m) ==
   IF st.hs = HsStoredAck /\ m.tok = st.tok /\ m.id = st.pid
-  THEN LET r1 == PCEmit(R0(st), st.pid, st.pseq)
+  THEN LET r1 == IF st.pn > 0 THEN PCEmitChunks(R0(st), 1)
+                 ELSE PCEmit(R0(st), Entry(st.pseq, st.pid, Whole))
            r2 == [r1 EXCEPT !.st.lastTok = st.tok, !.st.lastId = st.pid,
-                            !.st.hs = HsIdle, !.st.tok = 0, !.st.pid = 0, !.st.pseq = 0]
+                            !.st.hs = HsIdle, !.st.tok = 0, !.st.pid = 0, !.st.pseq = 0, !.st.pn = 0]
        IN PCAllowNext(r2)
   ELSE IF m.tok = st.lastTok /\ m.id = st.lastId THEN R0(st)
   ELSE PCFail(R0(st))
